@@ -6,8 +6,8 @@ import (
 	"image"
 	"image/color"
 	"image/draw"
-	"strings"
 	"math/rand"
+	"strings"
 	"time"
 
 	"github.com/deepteams/webp"
@@ -50,7 +50,7 @@ func metaBlob(rng *rand.Rand, class int) []byte {
 }
 
 type c15Case struct {
-	kind         string // lossy | lossy+alpha | lossless | lossless+alpha | anim1 | anim2
+	kind           string // lossy | lossy+alpha | lossless | lossless+alpha | anim1 | anim2
 	icc, exif, xmp int
 }
 
@@ -268,4 +268,4 @@ type genericImage struct{ im *image.NRGBA }
 
 func (g genericImage) ColorModel() color.Model { return color.NRGBAModel }
 func (g genericImage) Bounds() image.Rectangle { return g.im.Bounds() }
-func (g genericImage) At(x, y int) color.Color  { return g.im.NRGBAAt(x, y) }
+func (g genericImage) At(x, y int) color.Color { return g.im.NRGBAAt(x, y) }
